@@ -35,6 +35,7 @@ def scenario(rng, k, tier):
         first.append(20)
     L.append("create 1 " + " ".join(f"{x:x}" for x in first))
     table = {}        # ssrc -> key index (explicit)
+    dup = {}          # ssrc -> key index of an explicit stream added BEHIND a clone of the same SSRC (the first entry wins while it exists)
     cloned = set()
     pool = ssrc_pool(rng, 12 if tier == "quick" else 60)
     seq = {}
@@ -48,11 +49,21 @@ def scenario(rng, k, tier):
             L.append(default_policy(rng, s, keys=[(keys[ki], b"")], allow_repeat=allow[s], **cpk).line(5))
             L.append("add 1 5"); L.append(f"# A {s:x} {ki}")
             table[s] = ki
+        elif r < 0.34 and s in cloned and s not in table and s not in dup:
+            # srtp_stream_add does not refuse an SSRC that already has a (cloned) stream: the new entry goes behind it and takes over
+            # only when the first one is removed — whatever else is removed from the table in between
+            ki = rng.randrange(nkeys)
+            allow[s] = wild_allow
+            L.append(default_policy(rng, s, keys=[(keys[ki], b"")], allow_repeat=wild_allow, **cpk).line(5))
+            L.append("add 1 5")
+            dup[s] = ki
         elif r < 0.42:
             L.append(f"remove 1 {H(s)}"); L.append(f"# D {s:x} {1 if (s in table or s in cloned) else 0}")
             for i in range(nkeys):
                 L.append(f"remove {H(10 + i)} {H(s)}")     # a re-created sender stream restarts its SRTCP index: the receivers forget the SSRC too
-            table.pop(s, None); cloned.discard(s); 
+            table.pop(s, None); cloned.discard(s)
+            if s in dup:
+                table[s] = dup.pop(s)          # the entry behind it is now the first match
         elif r < 0.5:
             L.append(f"getroc 1 {H(s)}"); L.append(f"# G {s:x} {1 if (s in table or s in cloned) else 0}")
         elif r < 0.55:
@@ -104,7 +115,7 @@ def scenario(rng, k, tier):
                 L.append(pkt_op("protect", 1, pkt, cap=len(pkt) + 20))
                 L.append(f"# P2 {s:x} {1 if (allow.get(s, False) if s in table else wild_allow) else 0}")
         if step % 20 == 19:
-            L.append("nstreams 1"); L.append(f"# N {len(table) + len(cloned):x}")
+            L.append("nstreams 1"); L.append(f"# N {len(table) + len(cloned) + len(dup):x}")
     L.append("dealloc 1")
     for i in range(nkeys):
         L.append(f"dealloc {H(10 + i)}")
